@@ -19,7 +19,7 @@ def mem_bytes(m):
 
 
 def add(name, flav, *, policy=None, limit=None, ttl=None, mem=None, fw=None, cname=None, tags=(), events=(), deps=(),
-        inv=False, cif=False, ret='u64', args=(('a', 'u64'),), recv=None, gates=0, body=None, group='cfg', fw_lit=None, rev=False, via_macro=False):
+        inv=False, cif=False, ret='u64', args=(('a', 'u64'),), recv=None, gates=0, body=None, group='cfg', fw_lit=None, rev=False, via_macro=False, mem_lit=None):
     """flav: G (sync global), T (sync thread), A (async)"""
     _id[0] += 1
     sid = _id[0]
@@ -28,7 +28,7 @@ def add(name, flav, *, policy=None, limit=None, ttl=None, mem=None, fw=None, cna
     if limit is not None: attrs.append(f'limit = {limit}')
     if policy is not None: attrs.append(f'policy = "{policy}"')
     if ttl is not None: attrs.append(f'ttl = {ttl}')
-    if mem is not None: attrs.append(f'max_memory = {json.dumps(mem) if isinstance(mem, str) else mem}')
+    if mem is not None: attrs.append(f'max_memory = {mem_lit if mem_lit is not None else (json.dumps(mem) if isinstance(mem, str) else mem)}')
     if fw is not None: attrs.append(f'frequency_weight = {fw_lit if fw_lit is not None else repr(float(fw))}')
     if cname is not None: attrs.append(f'name = "{cname}"')
     if tags: attrs.append('tags = [' + ', '.join(json.dumps(t) for t in tags) + ']')
@@ -124,6 +124,12 @@ def main():
     add('a_mem_lru_nolimit', 'A', policy='lru', mem='1KB', group='mem')
     add('a_mem_tlru_ttl4', 'A', policy='tlru', mem='3KB', ttl=4, group='mem')
     add('t_mem_tlru_ttl4_l2', 'T', policy='tlru', mem='3KB', ttl=4, limit=2, group='mem')
+    # ---- other spellings of the same byte count (integer literals with separators / radix / suffix, lower-case units)
+    add('g_mem_lit_us', 'G', mem=1048576, mem_lit='1_048_576', group='mem')
+    add('a_mem_lit_us', 'A', mem=1048576, mem_lit='1_048_576', policy='lru', group='mem')
+    add('t_mem_lit_hex', 'T', mem=4096, mem_lit='0x1000', group='mem')
+    add('g_mem_lit_usize', 'G', mem=4096, mem_lit='4096usize', limit=2, group='mem')
+    add('a_mem_lit_gb', 'A', mem='2gb', group='mem')
     # ---- Result
     for f in 'GTA':
         add(f'{f.lower()}_res', f, ret='Result<u64, u8>', group='res')
@@ -131,6 +137,11 @@ def main():
         add(f'{f.lower()}_res_mem_l2', f, ret='Result<u64, u8>', limit=2, mem='1KB', policy='lru', group='res')
         add(f'{f.lower()}_res_std_mem', f, ret='std::result::Result<u64, u8>', mem='1KB', group='res')
         add(f'{f.lower()}_res_lfu_l2', f, ret='Result<u64, u8>', limit=2, policy='lfu', group='res')
+    # ---- a memory budget that the value fits into but the value plus per-entry bookkeeping would not
+    for f in 'GTA':
+        add(f'{f.lower()}_res_mem32', f, ret='Result<u64, u8>', mem=32, group='res')
+        add(f'{f.lower()}_mem8', f, mem=8, group='mem')
+        add(f'{f.lower()}_mem16_lru_l2', f, mem=16, limit=2, policy='lru', group='mem')
     # ---- cache_if
     for f in 'GTA':
         add(f'{f.lower()}_cif', f, cif=True, group='cif')
@@ -213,6 +224,9 @@ def main():
         add(f'{f.lower()}_mr_res', f, ret='Result<u64, u8>', via_macro=True, group='res')
         add(f'{f.lower()}_mr_res_std_mem_l2', f, ret='std::result::Result<u64, u8>', mem='1KB', limit=2, policy='lru', via_macro=True, group='res')
         add(f'{f.lower()}_mr_cif_res', f, cif=True, ret='Result<u64, u8>', via_macro=True, group='cif')
+    # ---- short lifetimes for invalidation of entries that have expired but were not looked up again
+    for f in 'GA':
+        add(f'{f.lower()}_ttl1_lru_l3', f, policy='lru', limit=3, ttl=1, group='cfg')
     # ---- larger limits for invalidation followed by overflows
     for f in 'GA':
         add(f'{f.lower()}_arc_l4', f, policy='arc', limit=4, group='cfg')
